@@ -32,8 +32,52 @@ def sacct_text(a):
     return "CANCELLED by 1234" if a == "CANCELLED_BY" else a
 
 
+class _PoolStub:
+    """Answers the local client's state query with a fixed table (what a worker pool would report)."""
+
+    def __init__(self, table):
+        import socket
+        import threading
+
+        self.table = table
+        self.sock = socket.socket()
+        self.sock.bind(("127.0.0.1", 0))
+        self.sock.listen(4)
+        self.sock.settimeout(0.2)
+        self.port = self.sock.getsockname()[1]
+        self.stop = False
+        self.thread = threading.Thread(target=self.run, daemon=True)
+        self.thread.start()
+
+    def run(self):
+        while not self.stop:
+            try:
+                c, _ = self.sock.accept()
+            except OSError:
+                continue
+            try:
+                f = c.makefile("rw")
+                for line in f:
+                    msg = json.loads(line)
+                    if msg.get("__kind__") == "get_task_states":
+                        f.write(json.dumps({"__kind__": "task_states", "tasks": self.table}) + "\n")
+                        f.flush()
+                    elif msg.get("__kind__") == "close":
+                        break
+            except Exception:  # noqa: BLE001
+                pass
+            c.close()
+
+    def close(self):
+        self.stop = True
+        self.thread.join(2)
+        self.sock.close()
+
+
 def drive_code(item):
     rid, scn, variant = item
+    if scn["backend"] == "local":
+        return drive_code_local(item)
     sb = cli_defs.sandbox()
     sb.reset(first_id=500)
     rng = random.Random(variant)
@@ -106,6 +150,33 @@ def drive_code(item):
         "tracked_n": len(trk),
         "err": (r.stderr or "")[-300:] + (repr(r.exc) if r.exc else ""),
     }
+    return {"id": rid, "scn": dict(scn, variant=variant), "obs": obs}
+
+
+def drive_code_local(item):
+    """The local back end: the pool reports one of its task states for the target's own task id."""
+    rid, scn, variant = item
+    sb = cli_defs.sandbox()
+    sb.reset()
+    own, oth = "own", "other"
+    sb.write("workflow.py", "from gwf import Workflow\ngwf = Workflow()\n"
+             "gwf.target('own', inputs=['src'], outputs=['o1']) << 'x'\ngwf.target('other', inputs=['src'], outputs=['o2']) << 'y'\n")
+    sb.set_file("src", 5)
+    sb.set_file("o2", 7)
+    sb.set_file("o1", 7 if scn["files"] == "complete" else 3)
+    table = {"41": "RUNNING" if scn["other"] == "run" else "FAILED", "999": "RUNNING", "7": "KILLED"}
+    if scn["q"] != "-":
+        table["40"] = scn["q"]
+    stub = _PoolStub(table)
+    try:
+        sb.write(".gwfconf.json", json.dumps({"backend": "local", "backend.local.port": stub.port, "backend.local.host": "127.0.0.1"}))
+        sb.write(".gwf/local-backend-tracked.json", json.dumps({own: 40, oth: 41} if variant % 2 else {oth: 41, own: 40}))
+        r = sb.gwf(["status"], sub=(variant % 13 == 0))
+    finally:
+        stub.close()
+    tbl, bad = cli_defs.parse_status_table(r.stdout)
+    obs = {"exit": r.exit_code if r.exc is None and not bad else -1, "shown": tbl.get(own, "?"), "other_shown": tbl.get(oth, "?"),
+           "sacct_called": False, "sacct_calls": 0, "sacct_ids_asked": 0, "tracked_n": 2, "err": (r.stderr or "")[-300:] + (repr(r.exc) if r.exc else "")}
     return {"id": rid, "scn": dict(scn, variant=variant), "obs": obs}
 
 
